@@ -373,7 +373,7 @@ func checkC09(c *Ctx) {
 		acc := accessesOf(p, ms, g, funcs)
 		var w []string
 		for _, a := range acc {
-			if a.Kind == "write" || a.Kind == "alias-mutation" || (a.Kind == "atomic" && !strings.Contains(a.Detail, ".Load")) || a.Kind == "address-escapes" {
+			if a.Kind == "write" || a.Kind == "alias-mutation" || a.Kind == "sync-write" || (a.Kind == "atomic" && !strings.Contains(a.Detail, ".Load")) || a.Kind == "address-escapes" {
 				w = append(w, fmt.Sprintf("%s (%s: %s) at %s", FuncKey(a.Fn), a.Kind, a.Detail, p.Pos(a.Instr.Pos())))
 			}
 		}
@@ -397,7 +397,7 @@ func checkC09(c *Ctx) {
 		acc := accessesOf(p, ms, g, cfuncs)
 		var w []string
 		for _, a := range acc {
-			if a.Kind == "write" || a.Kind == "alias-mutation" || a.Kind == "address-escapes" || (a.Kind == "atomic" && (strings.Contains(a.Detail, ".Store") || strings.Contains(a.Detail, ".Swap"))) {
+			if a.Kind == "write" || a.Kind == "alias-mutation" || a.Kind == "sync-write" || a.Kind == "address-escapes" || (a.Kind == "atomic" && (strings.Contains(a.Detail, ".Store") || strings.Contains(a.Detail, ".Swap"))) {
 				w = append(w, fmt.Sprintf("%s (%s: %s) at %s", FuncKey(a.Fn), a.Kind, a.Detail, p.Pos(a.Instr.Pos())))
 			}
 		}
